@@ -69,6 +69,7 @@ FIRST_MISSED = {
     "C14-5": "no check reported it -> WIN-1: an accepted (acknowledged) data packet is always delivered; C14 imports C01",
     "C18-5": "own property silent (reported by C12 EXIT and TICK-2) -> C18 shares the TICK rules",
     "C20-5": "no check reported it -> TMO-3: the sample of a first transmission is overwritten unconditionally with this call's time.Now()",
+    "C10-7": "no check reported it -> GBNHS-1: every way back to the wait for SYN after the echo sets the restart flag",
     "C06-3": "no check reported it -> RATELIMIT: once lastResend is refreshed the packets are transmitted",
 }
 
